@@ -67,7 +67,8 @@ TECH = "Lean 4 theorem (induction over operation histories / invariants) + per-s
 PROPS = {
     "C01": {
         "lean_modules": ["Cachelito.Props.C01", "Cachelito.Props.C01b", "Cachelito.Props.C01c"],
-        "streams": [core_stream(nontrivial=["hit", "re-store"]), macro_stream(nontrivial=["hit"])],
+        "streams": [core_stream(nontrivial=["hit", "re-store"]), macro_stream(nontrivial=["hit"]),
+                    sched_stream(nontrivial=['served-call-source-checked'], quick=(6, 4, 80), what="L3: scheduled runs of 2-3 real threads (calls racing with stores of the same key and with invalidations): every call returns the function's value for its own arguments, and a call served from the cache has a legitimate source (a store for the same arguments that no completed invalidation separates from it)")],
         "monitors": ["C01"],
         "rule": "L1: generated engine histories; non-trivial = a lookup that returned a value or a store that replaced one. L2: generated call histories on real generated functions; non-trivial = a call served from the cache; distinct by (config, pre-state, op) resp. (op, observation)",
         "level_text": "Lean theorems: in every history of every flavour/policy/configuration a lookup returns exactly the value of the latest store under that key (never a value stored under another key, never a replaced one); the store always holds the latest value per key. Tied to the code by per-step full-state comparison (engines) and per-call comparison of returned values, traces and cache dumps (generated functions); monitors: returned value = value of the latest store (L1), = the deterministic body's value for the arguments (L2).",
@@ -135,7 +136,8 @@ PROPS = {
         "lean_modules": ["Cachelito.Props.C05", "Cachelito.Props.C05a"],
         "streams": [core_stream(nontrivial=["memory-store"], what="L1 restricted to nothing: all flavours/policies, memory-aware stores with sizes around max_memory"),
                     lines_stream("mem_diff", "mem", ["{seed}", "{n}"], 60, 600,
-                                 "estimator: random values of 85 Rust types (String/Vec with chosen capacities, nested Option/Result/tuple/Box/Arc/Rc, CacheEntry) through the REAL estimate_memory() vs MemEst.estimate; independent footprint walk", r"\|")],
+                                 "estimator: random values of 85 Rust types (String/Vec with chosen capacities, nested Option/Result/tuple/Box/Arc/Rc, CacheEntry) through the REAL estimate_memory() vs MemEst.estimate; independent footprint walk", r"\|"),
+                    sched_stream(nontrivial=['quiescent-cache-checked'], quick=(6, 4, 80), what="L3: scheduled runs on memory-bounded caches (memory-aware stores racing with each other and with invalidations): at quiescence the estimated total is within max_memory")],
         "monitors": ["C05"],
         "rule": "L1: memory-aware stores on the real engines with value sizes around max_memory (exact fit, one byte over, oversize); non-trivial = a memory-aware store with max_memory set. Estimator: one random value per line, distinct lines counted",
         "level_text": "Lean theorems: (engine) after every memory-aware store total size <= max_memory for every history, an oversize value changes nothing but its own key, the memory loop removes exactly the shortest prefix of the policy's victim sequence after which the total fits (nothing when it already fits) and always terminates; (estimator) estimate = inline + owned heap (+ borrowed bytes for &str/&[T]), never below the inline size. Tied to the code per step (engines, full state) and per value (estimator).",
@@ -145,7 +147,8 @@ PROPS = {
     },
     "C06": {
         "lean_modules": ["Cachelito.Props.C06"],
-        "streams": [core_stream(nontrivial=["expiry", "ttl-boundary"])],
+        "streams": [core_stream(nontrivial=["expiry", "ttl-boundary"]),
+                    sched_stream(nontrivial=['served-call-source-checked', 'concurrent-call'], quick=(6, 4, 80), what="L3: scheduled runs that start from EXPIRED entries (stored, then aged past the ttl through the verif hook): a call is served from the cache only if some call stored the key again; expired-lookup paths race with stores and with each other")],
         "monitors": ["C06"],
         "rule": "generated episodes with time steps around the TTL boundary (T-0.1s, T, T+0.1s, whole seconds for async); non-trivial = a lookup of an entry within one second of the boundary or an expiry purge",
         "level_text": "Lean theorems: with ttl = T a lookup of an entry of age >= T s returns nothing, counts a miss and removes the key from store and queue (so it no longer occupies capacity: a following store into the previously full cache evicts nothing); a younger entry (sync: age < T; async: real age <= T-1 s, exact characterisation by the whole-second stamps) is served; at history level a served value always has real age < T. All flavours, policies, limits.",
@@ -203,7 +206,8 @@ PROPS = {
     },
     "C12": {
         "lean_modules": ["Cachelito.Props.C12", "Cachelito.Props.C12r"],
-        "streams": [macro_stream(nontrivial=["group-invalidation-hit"]), reg_stream()],
+        "streams": [macro_stream(nontrivial=["group-invalidation-hit"]), reg_stream(),
+                    sched_stream(nontrivial=['concurrent-tag', 'concurrent-cache', 'concurrent-event'], quick=(6, 4, 80), what="L3: scheduled runs in which group / name invalidations race with calls: a call that starts after an invalidation has COMPLETED is never served an entry stored before that invalidation began")],
         "monitors": ["C12"],
         "rule": "episodes over 4 real generated functions drawn from a corpus with random tag/event/dependency/name metadata (sync and async mixed, name overrides), requests including undeclared names; non-trivial = a group invalidation that matched at least one registered cache",
         "level_text": "Lean theorems over the system model (caches + invalidation registry): after a tag/event/dependency/name request every registered matching cache has empty store and queue, the returned count/boolean equals the number of such caches, unknown names change nothing, and the next call for any arguments runs the body (also after arbitrary other operations). Tied to the code by return values and the verif dumps of every cache instance after each operation.",
@@ -212,7 +216,8 @@ PROPS = {
     },
     "C13": {
         "lean_modules": ["Cachelito.Props.C13", "Cachelito.Props.C12r"],
-        "streams": [macro_stream(nontrivial=["conditional-invalidation-removed", "group-invalidation-hit"]), reg_stream()],
+        "streams": [macro_stream(nontrivial=["conditional-invalidation-removed", "group-invalidation-hit"]), reg_stream(),
+                    sched_stream(nontrivial=['concurrent-with', 'concurrent-allwith'], quick=(6, 4, 80), what="L3: scheduled runs in which conditional invalidations race with calls: a key matched by a completed invalidate_with / invalidate_all_with is not served from an entry stored before it began; non-matching caches and keys are untouched at quiescence (dump replayed on the interleaving model)")],
         "monitors": ["C13"],
         "rule": "episodes with invalidate_with / invalidate_all_with over random subsets of the stored keys and group invalidations, followed by further overflow histories; non-trivial = an invalidation that removed something",
         "level_text": "Lean theorems: group invalidations leave every non-matching cache instance (incl. thread-scope ones) equal; invalidate_with / invalidate_all_with yield exactly store.filter(not p) and queue.filter(not p) with survivors' order, values, births and hit counters kept; the invariant is preserved system-wide; sizes and memory totals afterwards are those of the survivors, a following overflow evicts the oldest survivor, and invalidation commutes with stores of the survivors. Tied to the code by dumps of every cache instance after each operation.",
